@@ -255,6 +255,9 @@ func (tp *TableParser) parseRow(row tableRowXML) ParsedTableRow {
 }
 
 // parseCell parses a table cell.
+// maxCellSpan bounds number-columns-spanned (the grid is allocated from it).
+const maxCellSpan = 1024
+
 func (tp *TableParser) parseCell(cell tableCellXML) ParsedTableCell {
 	parsed := ParsedTableCell{
 		ColSpan:   1,
@@ -265,6 +268,11 @@ func (tp *TableParser) parseCell(cell tableCellXML) ParsedTableCell {
 	// Parse column span
 	if cell.NumberColumnsSpanned != "" {
 		if span, err := strconv.Atoi(cell.NumberColumnsSpanned); err == nil && span > 0 {
+			// the span sizes the table grid: a count from the file must not
+			// grow it beyond any table a text document holds
+			if span > maxCellSpan {
+				span = maxCellSpan
+			}
 			parsed.ColSpan = span
 		}
 	}
